@@ -10,8 +10,11 @@ use nexrad_decode::messages::volume_coverage_pattern::{
 use nexrad_decode::messages::{decode_messages, MessageContents};
 use serde_json::json;
 use std::io::Cursor;
+#[cfg(feature = "dec-uom")]
 use uom::si::angle::degree;
+#[cfg(feature = "dec-uom")]
 use uom::si::angular_velocity::degree_per_second;
+#[cfg(feature = "dec-uom")]
 use uom::si::velocity::meter_per_second;
 
 fn decode_body(body: &[u8]) -> Result<Message, String> {
@@ -177,16 +180,22 @@ fn sweep_cut_u16(obs: &mut Obs, base: &ElevationDataBlock) {
         c.correlation_coefficient_threshold = raw.wrapping_add(5) as i16;
         c.supplemental_data = raw;
         accf(obs, "elevation_angle_degrees", r, || c.elevation_angle_degrees(), angle(raw), true);
+        #[cfg(feature = "dec-uom")]
         accf(obs, "elevation_angle(uom)", r, || c.elevation_angle().get::<degree>(), angle(raw), false);
         accf(obs, "sector_1_edge_angle_degrees", r, || c.sector_1_edge_angle_degrees(), angle(raw), true);
+        #[cfg(feature = "dec-uom")]
         accf(obs, "sector_1_edge_angle(uom)", r, || c.sector_1_edge_angle().get::<degree>(), angle(raw), false);
         accf(obs, "sector_2_edge_angle_degrees", r, || c.sector_2_edge_angle_degrees(), angle(raw.rotate_left(1)), true);
+        #[cfg(feature = "dec-uom")]
         accf(obs, "sector_2_edge_angle(uom)", r, || c.sector_2_edge_angle().get::<degree>(), angle(raw.rotate_left(1)), false);
         accf(obs, "sector_3_edge_angle_degrees", r, || c.sector_3_edge_angle_degrees(), angle(raw.rotate_left(2)), true);
+        #[cfg(feature = "dec-uom")]
         accf(obs, "sector_3_edge_angle(uom)", r, || c.sector_3_edge_angle().get::<degree>(), angle(raw.rotate_left(2)), false);
         accf(obs, "ebc_angle_degrees", r, || c.ebc_angle_degrees(), angle(raw.rotate_left(3)), true);
+        #[cfg(feature = "dec-uom")]
         accf(obs, "ebc_angle(uom)", r, || c.ebc_angle().get::<degree>(), angle(raw.rotate_left(3)), false);
         accf(obs, "azimuth_rate_degrees_per_second", r, || c.azimuth_rate_degrees_per_second(), rate(raw), true);
+        #[cfg(feature = "dec-uom")]
         accf(obs, "azimuth_rate(uom)", r, || c.azimuth_rate().get::<degree_per_second>(), rate(raw), false);
         accf(obs, "reflectivity_threshold", r, || c.reflectivity_threshold(), (raw as i16) as f64 / 8.0, true);
         accf(obs, "velocity_threshold", r, || c.velocity_threshold(), (raw.wrapping_add(1) as i16) as f64 / 8.0, true);
@@ -273,6 +282,7 @@ fn sweep_header(obs: &mut Obs, base: &Header) {
             _ => None,
         };
         acc(obs, "doppler_velocity_resolution_meters_per_second", r, || h.doppler_velocity_resolution_meters_per_second(), dv);
+        #[cfg(feature = "dec-uom")]
         acc(obs, "doppler_velocity_resolution(uom)", r, || h.doppler_velocity_resolution().map(|v| v.get::<meter_per_second>()), dv);
     }
 }
